@@ -290,7 +290,27 @@ def directed(ctx):
     return cases
 
 
+def tokenizer_cases(ctx):
+    """`tokenize_braces` (validation of --rename templates) against the model: random strings over braces, letters and placeholders"""
+    from core import correspond, hx
+    from cutadapt.tokenizer import tokenize_braces, BraceToken, TokenizeError
+    rng = ctx.rng
+    cases = []
+    pieces = ["{", "}", "{id}", "{comment}", "{r1.comment}", "{rn}", " ", "x", "_", "{}", "{{", "}}", "{a b}", "id", "{header}"]
+    for _ in range(ctx.scale(600, 20000)):
+        t = "".join(rng.choice(pieces) for _ in range(rng.randint(0, 7)))
+        try:
+            toks = list(tokenize_braces(t))
+            out = " ".join(("V" if isinstance(k, BraceToken) else "L") + (k.value.encode().hex() or "-") for k in toks) or "-"
+        except TokenizeError as e:
+            out = "error:unexpected-left" if "'{'" in str(e) else "error:unexpected-right"
+        cases.append((f"tokenize {hx(t)}", out))
+        ctx.count("tokenize:" + ("error" if out.startswith("error") else "ok"))
+    correspond(ctx, "tokenize", cases)
+
+
 def run(ctx):
+    tokenizer_cases(ctx)
     pipeprop.run(ctx, "C10", FOCUS, oracle, 150, 3000,
                  "random subsets of the read-modifying options (single and paired) with a random permutation of the option tokens, plus directed single-end cases "
                  "without adapters compared with a reference composition on reads where adjacent stages interact, plus one-sided paired cases (routing); "
